@@ -217,10 +217,13 @@ func (z *ZodDiscriminatedUnion[T, R]) PrefaultFunc(fn func() T) *ZodDiscriminate
 	return z.withInternals(in)
 }
 
-// Meta stores metadata in the global registry.
+// Meta returns a new schema with the given metadata stored in the global
+// registry; the receiver and its registry entry are unchanged.
 func (z *ZodDiscriminatedUnion[T, R]) Meta(meta core.GlobalMeta) *ZodDiscriminatedUnion[T, R] {
-	core.GlobalRegistry.Add(z, meta)
-	return z
+	in := z.internals.Clone()
+	clone := z.withInternals(in)
+	core.GlobalRegistry.Add(clone, meta)
+	return clone
 }
 
 // Describe registers a description in the global registry.
